@@ -27,11 +27,12 @@ func (c17) ID() string { return "C17" }
 
 func (c17) Rule() string {
 	return "a case is a stream of k (1..5) records written back to back with seqio.NewWriter(buf, FastaFile).WriteSeq (for streams without GenBank records also through the format-detecting writer), then read with seqio.NewAutoScanner from the written text and from its CRLF twin. " +
-		"Record inputs: seqio.Fasta, *seqio.Fasta, gts.New(string info), gts.New(fmt.Stringer info), seqio.GenBank (plain, Fields.Region set to a gts.Segment, or obtained by gts.Slice with non-negative and negative indices). " +
+		"Record inputs: seqio.Fasta, *seqio.Fasta, gts.New(string info), gts.New(fmt.Stringer info), seqio.GenBank (plain, Fields.Region set to a gts.Segment, obtained by gts.Slice with non-negative and negative indices, or a CONTIG-only record without ORIGIN block: zero residues). " +
 		"systematic (every shard enumerates, NextShared): A. every length n in 0..300 (thorough 0..1400) x k in 1..5 x position of the length-n record in the stream, the other records drawn from the boundary lengths {0,1,7,35,69,70,71,139,140,141,210,299}, kinds/descriptions/versions/definitions rotated from fixed pools; B. every residue byte 33..126 except '>' as a homogeneous 71-residue record and in cyclic-alphabet residues; C. description pool (empty, '>', spaces, tabs, leading/trailing blanks, 70 and 200 columns, UTF-8, 'LOCUS', '//') x boundary lengths x the four non-GenBank input kinds x k in {1,3}; D. version pool x definition pool x {plain, region, slice, slice with negative indices} x boundary lengths. " +
 		"seeded (NextOwn): k uniform 1..5, lengths <= 300 (thorough <= 5000) biased to multiples of 70 +-1 and 0, random kinds, descriptions over bytes 32..126 and tab (no line breaks), residues over 33..126 minus '>' or a DNA alphabet. " +
-		"Oracle: WriteSeq returns no error; the bytes written for each record are '>'+desc+LF followed by the residues in lines of exactly 70 columns (last line shorter), each ended by one LF (zero residues: empty line or nothing; exact multiple of 70: an extra blank line is tolerated); reading the LF text and the CRLF twin yields exactly k records, in order, each with the same description and the same residues, and Err()==nil; for GenBank inputs desc == Version + [':'(head+1)'-'tail] + ' ' + Definition and residues == the record's residues. " +
+		"Oracle: WriteSeq returns no error; the bytes written for each record are '>'+desc+LF followed by the residues in lines of exactly 70 columns (last line shorter), each ended by one LF (zero residues: empty line or nothing; exact multiple of 70: an extra blank line is tolerated); reading the LF text and the CRLF twin yields exactly k records, in order, each with the same description and the same residues when looked at after the whole stream was scanned, and Err()==nil; for GenBank inputs desc == Version + [':'(head+1)'-'tail] + ' ' + Definition and residues == the record's residues. " +
 		"Outside the quantifier and never generated: descriptions/versions/definitions containing LF or CR, residues containing '>' or white space, wrap-around slices, slices of slices. " +
+		"CLI layer: gts clear|reverse|complement|select gene|sort -F fasta --no-cache on streams of 1..3 generated GenBank records (lengths on the 70-column boundaries; CONTIG-only records for clear): the text is one FASTA record per input record with description VERSION+' '+DEFINITION and the residues the command implies in the exact layout, and fed back through gts clear -F fasta reads back the same. " +
 		"non-trivial: the stream has >= 2 records or a record longer than one line (n > 70); distinct: canonical case text (kinds, descriptions, lengths, residue generator parameters, writer)."
 }
 
@@ -43,10 +44,11 @@ func (c17) RequiredBuckets(tier string) []string {
 		"desc:empty", "desc:has-gt", "desc:has-space", "desc:has-tab",
 		"genbank:plain", "genbank:region", "genbank:slice", "genbank:slice-negative-index",
 		"kind:fasta", "kind:fasta-ptr", "kind:basic-string", "kind:basic-stringer",
-		"kind:genbank", "kind:genbank-region", "kind:genbank-slice",
+		"kind:genbank", "kind:genbank-region", "kind:genbank-slice", "kind:genbank-contig",
 		"writer:fasta", "writer:auto",
 		"alphabet:single-byte-record", "residues:cyclic-alphabet", "residues:random",
 		"empty-record-not-last", "multiple-of-70-not-last",
+		"cli:fasta clear", "cli:fasta reverse", "cli:fasta complement", "cli:fasta select", "cli:fasta sort", "cli:fasta stream", "cli:fasta len%70=0", "cli:fasta CONTIG-only record",
 	}
 }
 
@@ -120,6 +122,7 @@ type c17rec struct {
 	pre    int  // genbank-slice: residues of the parent before the slice
 	post   int  // genbank-slice: residues of the parent after the slice
 	neg    bool // genbank-slice: indices given as negative offsets from the end
+	clen   int  // genbank-contig: length of the CONTIG region (the record holds no residues)
 }
 
 func c17gen(mode string, param int64, n int) []byte {
@@ -152,6 +155,9 @@ func (r *c17rec) isGB() bool { return strings.HasPrefix(r.kind, "genbank") }
 
 // residues are the residues the written record must carry.
 func (r *c17rec) residues() []byte {
+	if r.kind == "genbank-contig" {
+		return []byte{}
+	}
 	if r.kind == "genbank-slice" {
 		return c17gen(r.gmode, r.gparam, r.pre+r.n+r.post)[r.pre : r.pre+r.n]
 	}
@@ -164,7 +170,7 @@ func c17Flat(s string) string { return strings.ReplaceAll(s, "\n", " ") }
 // wantDesc is the description the written record must carry.
 func (r *c17rec) wantDesc() string {
 	switch r.kind {
-	case "genbank":
+	case "genbank", "genbank-contig":
 		return r.ver + " " + c17Flat(r.def)
 	case "genbank-region":
 		return r.ver + model.FastaSuffix(r.head, r.head+r.n) + " " + c17Flat(r.def)
@@ -179,6 +185,8 @@ func (r *c17rec) enc() string {
 	switch r.kind {
 	case "genbank":
 		return fmt.Sprintf("{genbank ver=%q def=%q %s}", r.ver, r.def, res)
+	case "genbank-contig":
+		return fmt.Sprintf("{genbank-contig (no ORIGIN block, CONTIG join(ACC17.1:%d..%d)) ver=%q def=%q}", r.head+1, r.head+r.clen, r.ver, r.def)
 	case "genbank-region":
 		return fmt.Sprintf("{genbank-region ver=%q def=%q region=Segment{%d,%d} %s}", r.ver, r.def, r.head, r.head+r.n, res)
 	case "genbank-slice":
@@ -221,6 +229,11 @@ func (r *c17rec) build() gts.Sequence {
 		gb := c17genbank(r.ver, r.def, res)
 		gb.Fields.Region = gts.Segment{r.head, r.head + r.n}
 		return gb
+	case "genbank-contig":
+		gb := c17genbank(r.ver, r.def, nil)
+		gb.Origin = seqio.NewOrigin(nil)
+		gb.Fields.Contig = seqio.Contig{Accession: "ACC17.1", Region: gts.Segment{r.head, r.head + r.clen}}
+		return gb
 	case "genbank-slice":
 		L := r.pre + r.n + r.post
 		parent := c17genbank(r.ver, r.def, c17gen(r.gmode, r.gparam, L))
@@ -238,23 +251,31 @@ type c17got struct {
 }
 
 // c17read scans a text with the auto-detecting scanner; at most max records.
+// The records are kept as the values the scanner handed out and looked at only
+// after the whole stream was scanned (as gts sort / gts join / a guest reader
+// do): a record that a later Scan rewrites is not "read back identically".
 func c17read(text string, max int) (out []c17got, err error, bad string) {
 	sc := seqio.NewAutoScanner(strings.NewReader(text))
+	var vals []gts.Sequence
 	for sc.Scan() {
 		v := sc.Value()
 		if v == nil {
 			return out, nil, "Scan()==true but Value()==nil"
 		}
+		vals = append(vals, v)
+		if len(vals) >= max {
+			break
+		}
+	}
+	err = sc.Err()
+	for _, v := range vals {
 		d, ok := v.Info().(string)
 		if !ok {
 			return out, nil, fmt.Sprintf("record %d has Info() of type %T, not a description string", len(out), v.Info())
 		}
 		out = append(out, c17got{d, append([]byte(nil), v.Bytes()...)})
-		if len(out) >= max {
-			break
-		}
 	}
-	return out, sc.Err(), ""
+	return out, err, ""
 }
 
 func c17diff(want, got []byte) string {
@@ -746,7 +767,7 @@ func (m c17) Run(c *fw.Ctx) {
 	// D. GenBank -> FASTA: version x definition x region mode x boundary lengths.
 	for vi, ver := range c17VerPool {
 		for fi, def := range c17DefPool {
-			for mi, mode := range []string{"plain", "region", "slice", "slice-neg", "slice-prefix", "slice-suffix"} {
+			for mi, mode := range []string{"plain", "region", "slice", "slice-neg", "slice-prefix", "slice-suffix", "contig"} {
 				for ni, n := range []int{0, 1, 69, 70, 71, 140} {
 					if !c.NextShared() {
 						continue
@@ -765,6 +786,9 @@ func (m c17) Run(c *fw.Ctx) {
 						r.kind, r.pre, r.post = "genbank-slice", 0, 1+(fi*11+ni)%90
 					case "slice-suffix":
 						r.kind, r.pre, r.post = "genbank-slice", 1+(vi*13+ni*7)%90, 0
+					case "contig":
+						// a record without residues whose CONTIG line spans n+1 bases.
+						r.kind, r.head, r.clen, r.n = "genbank-contig", []int{0, 1, 99, 12345}[(vi+fi+ni)%4], n+1, 0
 					}
 					recs := []c17rec{r}
 					if (vi+fi+mi+ni)%2 == 1 {
@@ -776,7 +800,7 @@ func (m c17) Run(c *fw.Ctx) {
 			}
 		}
 	}
-	c.Exhaustive("version pool x definition pool x {plain, Region set, Slice, Slice with negative indices, prefix slice, suffix slice} x n in {0,1,69,70,71,140}")
+	c.Exhaustive("version pool x definition pool x {plain, Region set, Slice, Slice with negative indices, prefix slice, suffix slice, CONTIG-only record} x n in {0,1,69,70,71,140}")
 
 	// E. seeded streams.
 	N := c.Pick(1500, 15000)
@@ -792,6 +816,9 @@ func (m c17) Run(c *fw.Ctx) {
 		}
 		for i := range recs {
 			recs[i] = c17randRec(r, ml)
+			if r.Intn(14) == 0 {
+				recs[i] = c17rec{kind: "genbank-contig", ver: c17VerPool[r.Intn(len(c17VerPool))], def: c17DefPool[r.Intn(len(c17DefPool))], gmode: "cyc", head: r.Intn(1000), clen: 1 + r.Intn(5000)}
+			}
 		}
 		writer := "fasta"
 		if c17allPlain(recs) && r.Intn(3) == 0 {
@@ -802,4 +829,6 @@ func (m c17) Run(c *fw.Ctx) {
 		}
 		m.check(c, recs, writer)
 	}
+	// F. `gts <cmd> -F fasta` on the real binary.
+	cliFasta(c)
 }
